@@ -42,6 +42,15 @@ def run(ck):
             t = b.term
             if t and t.get("k") == "if":
                 refs = [strip_tmpl(r) for r in lib.term_refs(f, t)]
+                # the amount already held may also be kept in a fill counter of the buffer class: a member that feed() advances by exactly
+                # `len` (and that the end of the readable area is measured with: C03-R3)
+                lenp = f.params[1]["name"]
+                counters = {strip_tmpl(a_["lhs"].get("f") or "") for a_ in f.events("assign") if a_.get("op") == "+=" and (a_.get("rhs") or {}).get("v") == lenp
+                            and strip_tmpl(a_["lhs"].get("f") or "").startswith("Pistache::ArrayStreamBuf::")}
+                if counters and any(r[2:] in counters for r in refs if r.startswith("f:")) and any(r.endswith("ArrayStreamBuf::maxSize") for r in refs) and ("v:" + lenp) in refs \
+                        and not any(r.startswith("c:") for r in refs):
+                    tests.append(b)
+                    continue
                 if any(r.endswith("ArrayStreamBuf::bytes") for r in refs) and any(r.endswith("ArrayStreamBuf::maxSize") for r in refs) and ("v:" + f.params[1]["name"]) in refs:
                     # the amount already held is bytes.size() — the number of bytes fed so far — not its capacity or anything else
                     calls = {r[2:] for r in refs if r.startswith("c:")}
@@ -399,6 +408,22 @@ def run(ck):
     ck.ob("C14-R5", "checkIdlePeers/408-then-release", bool(sends) and rel_ok, sends[0].loc if sends else cip.loc, cip,
           "send(Request_Timeout).then(release, release) for every idle peer")
 
+    fill_counters = set()
+    ntb = 0
+    for f0 in prog.find("Pistache::ArrayStreamBuf::feed", 1):
+        fill_counters |= {strip_tmpl(a_["lhs"].get("f") or "") for a_ in f0.events("assign") if a_.get("op") == "+=" and (a_.get("rhs") or {}).get("v") == f0.params[1]["name"]
+                          and strip_tmpl(a_["lhs"].get("f") or "").startswith("Pistache::ArrayStreamBuf::")}
+    for fc_ in sorted(fill_counters):
+        for fn_ in prog.funcs.values():
+            if not fn_.cls or strip_tmpl(fn_.cls) != "Pistache::ArrayStreamBuf" or fn_.d.get("ctor"):
+                continue
+            for a_ in fn_.events("assign"):
+                if strip_tmpl(a_["lhs"].get("f") or "") == fc_ and a_.get("op") != "+=":
+                    ntb += 1
+                    ok_ = fn_.base.rsplit("::", 1)[1] == "reset"
+                    ck.ob("C14-R1", "ArrayStreamBuf::%s/fill-counter-taken-back-only-in-reset" % fn_.base.rsplit("::", 1)[1], ok_, a_.loc, fn_,
+                          "the fill counter is set back in reset() only" if ok_ else
+                          "%s sets the fill counter %s back between two feeds of the same message: the size limit no longer measures the request" % (fn_.name, fc_.rsplit("::", 1)[1]))
     # ---------------- R1 (the measured buffer only shrinks when the message is over) ----------------
     # the limit test in feed() measures bytes.size(): that is the size of the request so far only if nothing but reset() (and the
     # constructors) ever removes bytes from the buffer
@@ -412,13 +437,17 @@ def run(ck):
             grows = how in ("call:back_inserter", "call:inserter", "call:push_back", "call:insert", "call:emplace_back", "call:append", "call:reserve")
             if grows:
                 continue
+            # where the limit is measured with a fill counter, the storage may be resized freely: it is the counter that must only be
+            # taken back in reset() (next clause)
+            if fill_counters and how == "call:resize":
+                continue
             nsh += 1
             ok_ = fn_.base.rsplit("::", 1)[1] == "reset" or lib.only_reached_from(prog, fn_, {fn_.base.rsplit("::", 1)[0] + "::reset", fn_.base.rsplit("::", 1)[0] + "::ArrayStreamBuf"})
             ck.ob("C14-R1", "ArrayStreamBuf::%s/%s-on-the-measured-buffer" % (fn_.base.rsplit("::", 1)[1], how.replace("call:", "")), ok_, ev.loc, fn_,
                   "the buffer is emptied by reset() only" if ok_ else
                   "%s removes bytes from the buffer between two feeds of the same message: the size limit, measured on bytes.size(), then "
                   "counts per read instead of per request" % fn_.base.rsplit("::", 1)[1])
-    ck.require(nsh >= 1, "no shrinking write to ArrayStreamBuf::bytes found (reset() vanished?)")
+    ck.require(nsh + ntb >= 1, "no shrinking write to ArrayStreamBuf::bytes found (reset() vanished?)")
 
     # ---------------- R6: what was received is parsed before more is read ----------------
     ck.rule("C14-R6", "C path automaton",
